@@ -18,7 +18,8 @@ not_app = []
 engines = {}
 for pid in ids:
     modp = os.path.join(HERE, "props", pid.lower() + ".py")
-    if not os.path.exists(modp) or pid in na:
+    propsv = os.path.join(ROOT, "coq", "Props", pid + ".v")
+    if not os.path.exists(modp) or not os.path.exists(propsv) or not os.path.exists(os.path.join(ROOT, "evidence", pid + ".json")) or pid in na:
         not_app.append({"property_id": pid, "reason": na.get(pid, "not yet covered by the framework (work in progress; see DESIGN.md §11)")})
         continue
     try:
